@@ -46,7 +46,7 @@ inductive Value (F : Type) where
   | regex (pat : String)
   | time (ns : Int)
   | missing
-deriving Repr, Inhabited
+deriving Repr, Inhabited, DecidableEq
 
 def Value.ty {F} : Value F → Ty
   | .bool _ => .bool | .int _ => .int | .float _ => .float | .str _ => .string
